@@ -223,7 +223,7 @@ def main(argv=None):
         "known_findings_pinned_still_failing": {k: bool(v) for k, v in still_failing.items()},
         "fixed_findings_replayed": sum(1 for f in kf["findings"] if f["property"] == pid and f["status"] == "fixed" and f.get("reproducer") is not None),
         "inconclusive_cases": ninc,
-        "inconclusive_samples": [i.get("detail") for i in inconclusive[:5]],
+        "inconclusive_samples": ["case idx %s: %s" % (i.get("idx"), i.get("detail")) for i in inconclusive[:5]],
         "unlisted_violation_keys": dict(collections.Counter(v["key"] for v in unlisted)),
         "workers": nw,
         "inconclusive_reasons": reasons,
